@@ -155,8 +155,31 @@ pub(crate) fn tx_channel_legal(c: &mut Configuration, freq: u32, rx1: u32, bw500
         })
 }
 
+/// Is `f` inside the region's band?  Independent reference (RP002-1.0.3 section 2, band edges in
+/// Hz), *not* the plan's own `frequency_valid` closure (that one is code under test: a seeded
+/// change widened the IN865 band and was invisible while the oracle asked the plan itself).
 pub(crate) fn freq_in_band(c: &mut Configuration, f: u32) -> bool {
-    on_state!(&mut c.state, p, rd::freq_valid(p, f), rf::freq_valid(p, f))
+    let (lo, hi): (u32, u32) = match &c.state {
+        #[cfg(feature = "region-as923-1")]
+        State::AS923_1(_) => (915_000_000, 928_000_000),
+        #[cfg(feature = "region-as923-2")]
+        State::AS923_2(_) => (915_000_000, 928_000_000),
+        #[cfg(feature = "region-as923-3")]
+        State::AS923_3(_) => (915_000_000, 928_000_000),
+        #[cfg(feature = "region-as923-4")]
+        State::AS923_4(_) => (917_000_000, 920_000_000),
+        #[cfg(feature = "region-eu868")]
+        State::EU868(_) => (863_000_000, 870_000_000),
+        #[cfg(feature = "region-eu433")]
+        State::EU433(_) => (433_050_000, 434_790_000),
+        #[cfg(feature = "region-in865")]
+        State::IN865(_) => (865_000_000, 867_000_000),
+        #[cfg(feature = "region-au915")]
+        State::AU915(_) => (915_000_000, 928_000_000),
+        #[cfg(feature = "region-us915")]
+        State::US915(_) => (902_000_000, 928_000_000),
+    };
+    f >= lo && f <= hi
 }
 
 /// dynamic plans: channel `i` (< 16) as (present, ul frequency, rx1 frequency, enabled); fixed: absent
@@ -170,6 +193,21 @@ pub(crate) fn num_join(c: &mut Configuration) -> usize {
 
 /// Is `freq` the uplink frequency of one of the region's join channels (dynamic plans: the
 /// first NUM_JOIN_CHANNELS slots), with `rx1` its paired RX1 frequency?
+/// fixed plans: is `freq` the uplink frequency of one of the eight 500 kHz channels (64..71)?
+pub(crate) fn join_channel_is_500(c: &mut Configuration, freq: u32) -> bool {
+    on_state!(&mut c.state, p, { let _ = p; false },
+        {
+            let mut is500 = false;
+            let mut k = 64;
+            while k < 72 {
+                if rf::ul_freq(p, k) == freq {
+                    is500 = true;
+                }
+                k += 1;
+            }
+            is500
+        })
+}
 pub(crate) fn join_channel_legal(c: &mut Configuration, freq: u32, rx1: u32) -> bool {
     on_state!(&mut c.state, p,
         {
